@@ -557,7 +557,7 @@ def run_validator(text, want_ack=True, want_html=False, want_xml=False, record_w
     def cb(seg, src, node, valid):
         try:
             nodes.append({'seg': seg.get_seg_id(), 'path': node.get_path() if node is not None else '', 'segpos': src.get_seg_count(), 'line': src.get_cur_line(),
-                          'text': seg.format('~', '*', ':')})
+                          'text': seg.format('~', '*', ':'), 'eles': [[e.get_value() for e in comp.elements] for comp in seg.elements]})
         except Exception:
             nodes.append({'seg': '?', 'path': '', 'segpos': -1, 'line': -1, 'text': ''})
     del _captured[:]
